@@ -6,13 +6,21 @@
 //!             2 unstable_all, 3 = those three, 4 unstable_all + evil_json (evil=<hex>) + stat_reporter, 5 = all four.
 //!     answer: OK r=<ok|readerr|err:..|timeout> thr=<threads> fr=<max frames>/<stack bytes of that thread>
 //!             fb=<1 iff every thread has frames <= stack bytes + 2> peak=<peak heap bytes> in=<input bytes>
-//!             out=<bytes rendered> ms=<wall ms>
+//!             out=<bytes rendered> ms=<wall ms> cpu=<CPU ms of the processing thread> al=<allocator calls>
+//!             sym=<symbol-provider calls: fill_symbol+walk_frame+get_file_path>/<frames produced, all option sets>
+//!     A CPU watchdog ends the process (status 124, reason on stderr) as soon as a D/F case has used more CPU time than
+//!     the budget 10000 ms + 0.5 ms per input byte: a budget tied to the input size that does not depend on machine load.
 //!  L <hex of /proc/<pid>/limits>          -> L <name hex>|<soft>|<hard>|<unit hex>;...   (sorted by name)
 //!  G <addr> <kind 0 info|1 maps> <n> (a b p)*n   amd64/Linux crash at `mov rax,[rbx]`, rbx = addr
 //!                                         -> G <is_likely_guard_page of the access | ->
 //!  S <rsp> <op>   amd64 crash at op (0 push [rax] 1 call [rax] 2 pop [rax] 3 ret 4 push rax 5 call rel32
 //!                 6 pop rax 7 mov rax,[rax]) with rax = 0x5000 -> S <access addresses, comma separated | ->
 //!  J <n> (base size)*n <u> (base size)*u  -> J <end_addr,...>|<unloaded end_addr,...>   (from print_json)
+//!  I <mem64 0|1> <os 0 linux|1 win> <cpu 0 amd64|1 x86> <ip> <L> <n> (base len)*n
+//!                 exception context with instruction pointer ip; memory regions (after the 64-byte thread stack at
+//!                 0x10000) whose bytes are a function of the address: an L-byte instruction (L-3 segment prefixes +
+//!                 mov rax,[rbx]; L=1 ret; L=2 push [rax]) starts at ip, nop elsewhere
+//!                                         -> I <1 iff the crashing instruction was decoded>
 //!  A <hex of a function name>            -> A <cc> <argument names hex,...> | A -   (x86 argument recovery, unstable_all)
 //! A panic anywhere inside a case is answered `P;;<message>` by vharness::for_each_case.
 #[path = "../dumpspec.rs"]
@@ -34,6 +42,7 @@ static PEAK: AtomicUsize = AtomicUsize::new(0);
 unsafe impl GlobalAlloc for Counting {
     unsafe fn alloc(&self, l: Layout) -> *mut u8 {
         let p = System.alloc(l);
+        NALLOC.fetch_add(1, Ordering::Relaxed);
         if !p.is_null() {
             let c = CUR.fetch_add(l.size(), Ordering::Relaxed) + l.size();
             PEAK.fetch_max(c, Ordering::Relaxed);
@@ -46,6 +55,7 @@ unsafe impl GlobalAlloc for Counting {
     }
     unsafe fn realloc(&self, p: *mut u8, l: Layout, n: usize) -> *mut u8 {
         let q = System.realloc(p, l, n);
+        NALLOC.fetch_add(1, Ordering::Relaxed);
         if !q.is_null() {
             if n >= l.size() {
                 let c = CUR.fetch_add(n - l.size(), Ordering::Relaxed) + (n - l.size());
@@ -60,6 +70,57 @@ unsafe impl GlobalAlloc for Counting {
 #[global_allocator]
 static A: Counting = Counting;
 
+static NALLOC: AtomicUsize = AtomicUsize::new(0);
+static MAIN_CLOCK: std::sync::atomic::AtomicI32 = std::sync::atomic::AtomicI32::new(-1);
+/// CPU ms at which the running case must be finished (0 = no budget armed), and its input size (for the message)
+static CPU_DEADLINE_MS: std::sync::atomic::AtomicU64 = std::sync::atomic::AtomicU64::new(0);
+static CPU_CASE_INPUT: AtomicUsize = AtomicUsize::new(0);
+
+fn clock_ms(clk: libc::clockid_t) -> u64 {
+    let mut ts = libc::timespec { tv_sec: 0, tv_nsec: 0 };
+    unsafe { libc::clock_gettime(clk, &mut ts) };
+    ts.tv_sec as u64 * 1000 + ts.tv_nsec as u64 / 1_000_000
+}
+
+/// CPU time of the thread that processes the cases
+fn cpu_ms() -> u64 {
+    clock_ms(MAIN_CLOCK.load(Ordering::Relaxed) as libc::clockid_t)
+}
+
+pub const CPU_BUDGET_BASE_MS: u64 = 10000;
+pub const CPU_BUDGET_BYTES_PER_MS: u64 = 2;
+
+fn arm_cpu_budget(input_bytes: usize) {
+    CPU_CASE_INPUT.store(input_bytes, Ordering::Relaxed);
+    CPU_DEADLINE_MS.store(cpu_ms() + CPU_BUDGET_BASE_MS + input_bytes as u64 / CPU_BUDGET_BYTES_PER_MS, Ordering::Relaxed);
+}
+
+fn disarm_cpu_budget() {
+    CPU_DEADLINE_MS.store(0, Ordering::Relaxed);
+}
+
+fn start_cpu_watchdog() {
+    let mut clk: libc::clockid_t = 0;
+    let rc = unsafe { libc::pthread_getcpuclockid(libc::pthread_self(), &mut clk) };
+    assert_eq!(rc, 0, "pthread_getcpuclockid");
+    MAIN_CLOCK.store(clk as i32, Ordering::Relaxed);
+    std::thread::spawn(move || loop {
+        std::thread::sleep(Duration::from_millis(100));
+        let d = CPU_DEADLINE_MS.load(Ordering::Relaxed);
+        if d != 0 && clock_ms(clk) > d {
+            let n = CPU_CASE_INPUT.load(Ordering::Relaxed);
+            eprintln!(
+                "budget: a case used more than {} ms of CPU time for {} input bytes (budget {} ms + 1 ms per {} bytes)",
+                CPU_BUDGET_BASE_MS + n as u64 / CPU_BUDGET_BYTES_PER_MS,
+                n,
+                CPU_BUDGET_BASE_MS,
+                CPU_BUDGET_BYTES_PER_MS
+            );
+            std::process::exit(124);
+        }
+    });
+}
+
 struct Sink(usize);
 impl Write for Sink {
     fn write(&mut self, b: &[u8]) -> std::io::Result<usize> {
@@ -68,6 +129,41 @@ impl Write for Sink {
     }
     fn flush(&mut self) -> std::io::Result<()> {
         Ok(())
+    }
+}
+
+/// A SymbolProvider that counts the calls it forwards: work observed at the provider interface (hook-free).
+struct CountingProvider<P> {
+    inner: P,
+}
+static SYM_CALLS: AtomicUsize = AtomicUsize::new(0);
+#[async_trait::async_trait]
+impl<P: minidump_unwind::SymbolProvider + Sync> minidump_unwind::SymbolProvider for CountingProvider<P> {
+    async fn fill_symbol(
+        &self,
+        module: &(dyn minidump::Module + Sync),
+        frame: &mut (dyn minidump_unwind::FrameSymbolizer + Send),
+    ) -> Result<(), minidump_unwind::FillSymbolError> {
+        SYM_CALLS.fetch_add(1, Ordering::Relaxed);
+        self.inner.fill_symbol(module, frame).await
+    }
+    async fn walk_frame(&self, module: &(dyn minidump::Module + Sync), walker: &mut (dyn minidump_unwind::FrameWalker + Send)) -> Option<()> {
+        SYM_CALLS.fetch_add(1, Ordering::Relaxed);
+        self.inner.walk_frame(module, walker).await
+    }
+    async fn get_file_path(
+        &self,
+        module: &(dyn minidump::Module + Sync),
+        file_kind: minidump_unwind::FileKind,
+    ) -> Result<std::path::PathBuf, minidump_unwind::FileError> {
+        SYM_CALLS.fetch_add(1, Ordering::Relaxed);
+        self.inner.get_file_path(module, file_kind).await
+    }
+    fn stats(&self) -> HashMap<String, minidump_unwind::SymbolStats> {
+        self.inner.stats()
+    }
+    fn pending_stats(&self) -> minidump_unwind::PendingSymbolStats {
+        self.inner.pending_stats()
     }
 }
 
@@ -104,10 +200,10 @@ fn process(dump: &Minidump<'_, Vec<u8>>, syms: &HashMap<String, Vec<u8>>, opt: u
     let fut = async {
         if all_utf8 {
             let m: HashMap<String, String> = syms.iter().map(|(k, v)| (k.clone(), String::from_utf8(v.clone()).unwrap())).collect();
-            let provider = Symbolizer::new(string_symbol_supplier(m));
+            let provider = CountingProvider { inner: Symbolizer::new(string_symbol_supplier(m)) };
             tokio::time::timeout(Duration::from_secs(40), minidump_processor::process_minidump_with_options(dump, &provider, o)).await
         } else {
-            let provider = Symbolizer::new(BytesSupplier { modules: syms.clone() });
+            let provider = CountingProvider { inner: Symbolizer::new(BytesSupplier { modules: syms.clone() }) };
             tokio::time::timeout(Duration::from_secs(40), minidump_processor::process_minidump_with_options(dump, &provider, o)).await
         }
     };
@@ -172,9 +268,15 @@ fn run_whole(spec: &Spec) -> String {
     let base = CUR.load(Ordering::Relaxed);
     let bytes = build_dump(spec);
     let insz = bytes.len() + spec.syms.iter().map(|s| s.len()).sum::<usize>();
+    arm_cpu_budget(insz);
+    let (cpu0, al0) = (cpu_ms(), NALLOC.load(Ordering::Relaxed));
+    SYM_CALLS.store(0, Ordering::Relaxed);
     let dump = match Minidump::read(bytes) {
         Ok(d) => d,
-        Err(_) => return format!("OK r=readerr thr=0 fr=0/0 fb=1 peak=0 in={} out=0 ms=0", insz),
+        Err(_) => {
+            disarm_cpu_budget();
+            return format!("OK r=readerr thr=0 fr=0/0 fb=1 peak=0 in={} out=0 ms=0 cpu={} al=0 sym=0/0", insz, cpu_ms() - cpu0);
+        }
     };
     let syms = symbol_table(spec, &dump);
     let opts: Vec<u32> = match spec.opt {
@@ -190,6 +292,7 @@ fn run_whole(spec: &Spec) -> String {
     let evil = evil_file.as_ref().map(|f| f.path());
     let mut res = String::from("ok");
     let (mut thr, mut fr, mut sb, mut fb, mut out) = (0usize, 0usize, 0u64, true, 0usize);
+    let mut frames_total = 0usize;
     for o in opts {
         match process(&dump, &syms, o, evil) {
             Outcome::Timeout => res = "timeout".into(),
@@ -198,6 +301,7 @@ fn run_whole(spec: &Spec) -> String {
                 out += render(&state);
                 let (n, b, ok) = frame_bound(&dump, &state);
                 thr = state.threads.len();
+                frames_total += state.threads.iter().map(|t| t.frames.len()).sum::<usize>();
                 if !ok || (fb && n >= fr) {
                     fr = n;
                     sb = b;
@@ -207,7 +311,23 @@ fn run_whole(spec: &Spec) -> String {
         }
     }
     let peak = PEAK.load(Ordering::Relaxed).saturating_sub(base);
-    format!("OK r={} thr={} fr={}/{} fb={} peak={} in={} out={} ms={}", res, thr, fr, sb, fb as u8, peak, insz, out, t0.elapsed().as_millis())
+    disarm_cpu_budget();
+    format!(
+        "OK r={} thr={} fr={}/{} fb={} peak={} in={} out={} ms={} cpu={} al={} sym={}/{}",
+        res,
+        thr,
+        fr,
+        sb,
+        fb as u8,
+        peak,
+        insz,
+        out,
+        t0.elapsed().as_millis(),
+        cpu_ms() - cpu0,
+        NALLOC.load(Ordering::Relaxed) - al0,
+        SYM_CALLS.load(Ordering::Relaxed),
+        frames_total
+    )
 }
 
 fn hexs(s: &str) -> String {
@@ -356,6 +476,50 @@ fn run_json_modules(t: &mut Toks) -> String {
     format!("J {}|{}", ends("modules"), ends("unloaded_modules"))
 }
 
+/// I case: see the header. The regions' bytes are a function of the address.
+fn run_fetch(t: &mut Toks) -> String {
+    let mem64 = t.u64() == 1;
+    let os = if t.u64() == 1 { "win" } else { "linux" };
+    let cpu = if t.u64() == 1 { "x86" } else { "amd64" };
+    let ip = t.u64();
+    let l = t.usize();
+    let n = t.usize();
+    let mut instr: Vec<u8> = match l {
+        1 => vec![0xc3],
+        2 => vec![0xff, 0x30],
+        _ => {
+            let mut v = vec![0x2e; l - 3];
+            v.extend_from_slice(&[0x48, 0x8b, 0x03]);
+            v
+        }
+    };
+    instr.truncate(l);
+    let byte_at = |a: u64| -> u8 {
+        let d = a.wrapping_sub(ip);
+        if (d as usize) < instr.len() && d < 64 {
+            instr[d as usize]
+        } else {
+            0x90
+        }
+    };
+    let mut spec = Spec { cpu: cpu.into(), os: os.into(), ..Default::default() };
+    let (ipn, spn) = if cpu == "x86" { ("eip", "esp") } else { ("rip", "rsp") };
+    let r: Vec<(String, u64)> = vec![(ipn.into(), ip), (spn.into(), 0x10020), ("rbx".into(), 0x5000), ("rax".into(), 0x5000)];
+    spec.threads.push(ThreadSpec { id: 1, stack_base: 0x10000, stack: vec![0; 64], regs: Some(r.clone()) });
+    spec.exc = Some(ExcSpec { tid: 1, code: 11, flags: 0, addr: 0, nparams: 0, info0: 0, info1: 0, regs: Some(r) });
+    for _ in 0..n {
+        let (b, len) = (t.u64(), t.u64());
+        spec.regions.push((b, (0..len).map(|i| byte_at(b.wrapping_add(i))).collect()));
+    }
+    if mem64 {
+        spec.extra.insert("mem64".into(), "1".into());
+    }
+    let state = state_of(&spec);
+    render(&state);
+    let decoded = state.exception_info.as_ref().map(|ei| ei.instruction_str.is_some()).unwrap_or(false);
+    format!("I {}", decoded as u8)
+}
+
 /// A <hex of a function name (UTF-8)>: x86 / Windows thread inside a module whose symbol file names the
 /// covering FUNC so; unstable_all. -> A <cc 0 cdecl|1 thiscall> <arg names hex, comma separated> | A -
 fn run_args(t: &mut Toks) -> String {
@@ -400,10 +564,12 @@ fn run(line: &str) -> String {
         "S" => run_stack_access(&mut t),
         "J" => run_json_modules(&mut t),
         "A" => run_args(&mut t),
+        "I" => run_fetch(&mut t),
         x => panic!("kind {}", x),
     }
 }
 
 fn main() {
+    start_cpu_watchdog();
     for_each_case(run);
 }
